@@ -131,7 +131,7 @@ CONFIG = {
         'rules': [(r'Q:.*', 'QR', None), (r'TX:(EnableAttester|DisableAttester|LinkTokenPair|UnlinkTokenPair|AddRemoteTokenMessenger|RemoveRemoteTokenMessenger|SetMaxBurnAmountPerMessage)$', 'R', None),
                   (ANY, 'S', r'^(attester|limit|pair|messenger|nonce) ')],
         'monitors': [M.mon_c19],
-        'level_text': 'Theorems: each registry transaction is exactly one insert / remove / upsert on its own collection at the key it names (duplicates and unknown removals rejected), the ordered map obeys the exact-map laws (one entry created, exactly that entry deleted, distinct keys independent), key derivations are injective (token pairs: up to a Keccak-256 collision), single-item queries find an entry iff it exists and return the entry stored for that key, scalar queries return the stored values; for the model of cosmos-sdk query.Paginate a page is firstn limit (skipn offset l) resp. firstn limit (from_key cursor l) with the next key and total, and following next_key (key mode) or advancing the offset (offset mode) returns every entry exactly once in key order for every page size >= 1, the hypotheses (sorted, non-empty keys) being invariants of every reachable store. Tied to the Go keeper by differential execution of registry histories over colliding key pools with all queries and complete paging in both modes, forward and reverse; an independent reference (maps maintained from transaction outcomes, own Keccak) runs on the implementation trace. Tied to the Go source twice: by TRANSLATION (tools/goextract reads the handler(s) from /repo on every run and emits Gallina programs; the theorem file proves they equal the model handlers for every request and state wherever the model gives a verdict - evidence lists which functions were translated on this run and which, if any, the translator could not read) and by differential execution.',
+        'level_text': 'Theorems: each registry transaction is exactly one insert / remove / upsert on its own collection at the key it names (duplicates and unknown removals rejected), the ordered map obeys the exact-map laws (one entry created, exactly that entry deleted, distinct keys independent), key derivations are injective (token pairs: up to a Keccak-256 collision), single-item queries find an entry iff it exists and return the entry stored for that key, scalar queries return the stored values; for the model of cosmos-sdk query.Paginate a page is firstn limit (skipn offset l) resp. firstn limit (from_key cursor l) with the next key and total, and following next_key (key mode) or advancing the offset (offset mode) returns every entry exactly once in key order for every page size >= 1, the hypotheses (sorted, non-empty keys) being invariants of every reachable store. Tied to the Go keeper by differential execution of registry histories over colliding key pools with all queries and complete paging in both modes, forward and reverse; an independent reference (maps maintained from transaction outcomes, own Keccak) runs on the implementation trace. Tied to the Go source twice: by TRANSLATION (tools/goextract reads the handler(s) from /repo on every run and emits Gallina programs; the theorem file proves they equal the model handlers for every request and state wherever the model gives a verdict - evidence lists which functions were translated on this run and which, if any, the translator could not read) and by differential execution. The fourteen single-answer gRPC queries are translated from the Go source as well and proved to answer exactly what run_query answers (C19_go_queries_are_the_model); the five paginated queries are tied by differential execution against the Paginate model.',
         'assumptions': ['query.Paginate is modelled from the cosmos-sdk v0.50.7 source (Lib/Paginate.v), not verified; offset + limit < 2^64 in the page theorems (the uint64 wrap is written into the model)'],
     },
     'C20': {
